@@ -81,7 +81,7 @@ def _name_failure(fit, st, ev):
                 return "full-rank-closure", "all components taken: residual %.3g of ss0, explained variances sum to %.7f %%" % (st["ssLeft"] * 1e-9, sum(ve) * 1e-7)
     if e == "Project" and ev["err"] > 10000:
         return "reprojection", "projecting the training matrix: relative score error %.3g > 1e-8" % (ev["err"] * 1e-12)
-    if e == "Back" and ev["err"] > 10000:
+    if e == "Back" and ev["err"] > 10000 + 4 * min(ev.get("repr", 0), 100000):
         return "back-transform", "back-transformation error %.3g of |E0| > 1e-8" % (ev["err"] * 1e-12)
     return "ledger", "event %s rejected by the ledger" % ev
 
